@@ -213,6 +213,41 @@ def dead_end_spec(draw):
     return spec
 
 
+@st.composite
+def necessary_conflict_spec(draw):
+    """An option T that is incompatible with a node X which a confirmed node derives *necessarily* (every option of a
+    choice K below that node derives X), T's choice sitting 0-3 exclusively derived steps below the confirmed node, plus
+    independent choices that can be taken before or after"""
+    nodes = {n: {'k': 'gen'} for n in ['s', 'd', 'x']}
+    edges = [['s', 'd']]
+    prev = 'd'
+    for i in range(draw(ints(0, 3))):
+        nodes[f'q{i}x'] = {'k': 'gen'}      # (named q..x: not a removed root, just a chain node)
+        edges.append([prev, f'q{i}x'])
+        prev = f'q{i}x'
+    ids = draw(st.permutations(['c0', 'c1', 'c2', 'c3']))
+    t_opts = [f't{j}' for j in range(draw(ints(2, 3)))]
+    k_opts = [f'k{j}' for j in range(draw(ints(2, 3)))]
+    for o in t_opts+k_opts:
+        nodes[o] = {'k': 'gen'}
+    all_derive = draw(ints(0, 3)) != 0
+    for j, o in enumerate(k_opts):
+        if all_derive or j > 0:
+            edges.append([o, 'x'])
+    choices = [{'id': ids[0], 'origin': prev, 'opts': t_opts},
+               {'id': ids[1], 'origin': draw(st.sampled_from(['d', 's'])), 'opts': k_opts}]
+    for i in range(draw(ints(1, 2))):
+        opts = [f'u{i}{j}' for j in range(2)]
+        for o in opts:
+            nodes[o] = {'k': 'gen'}
+        choices.append({'id': ids[2+i], 'origin': draw(st.sampled_from(['s', 'd'])), 'opts': opts})
+    incompat = [[t_opts[0], 'x']]
+    if draw(ints(0, 2)) == 0:
+        incompat.append([draw(st.sampled_from(t_opts)), draw(st.sampled_from(k_opts))])
+    return {'salt': draw(st.sampled_from([0, 0, 1, 3])), 'nodes': nodes, 'edges': edges, 'choices': choices,
+            'incompat': incompat, 'start': ['s'], 'conns': [], 'cons': []}
+
+
 def gen_nodes(spec):
     return [n for n, nd in spec['nodes'].items() if nd['k'] == 'gen']
 
@@ -412,7 +447,7 @@ def labels(spec):
         out.append('multi_choice_origin')
     if len(spec['start']) > 1:
         out.append('multi_start')
-    if any(n.startswith('q') for n in spec['nodes']):
+    if any(n.startswith('q') and not n.endswith('x') for n in spec['nodes']):
         out.append('non_start_roots')
     if any(len(c['opts']) == 1 for c in spec['choices']):
         out.append('forced_choice')
